@@ -2,11 +2,15 @@ package check
 
 import (
 	"fmt"
+	"math/rand"
 	"time"
 )
 
+// HoleDocLens: byte lengths of vHoleDocs (harness/core/zz_verif_hole.go); only used to pick cut positions (a cut beyond the end is clamped by the harness).
+var HoleDocLens = []int{560, 150, 520, 150}
+
 // NumPrefixes must equal len(vPrefixes) in harness/core/zz_verif_prefixes.go.
-const NumPrefixes = 56
+const NumPrefixes = 64
 
 const contractLoc = "jerr.NewLocation replaced by its contract (panics iff the file is nil; returns File/Index unchanged; Line, Column, Quote opaque) — the contract itself is decided on the real code by the location-contract jobs (C07, also run inside C01)"
 const contractRune = "bytes.Bytes.DecodeRune (used only to render the offending character into error text) evaluated on the concrete witness; error message text after the constant prefix is outside the claim"
@@ -31,7 +35,8 @@ func propC01(c *Ctx) int {
 	if thorough {
 		maxN, k = 5, 3
 	}
-	base := Job{Pkg: "core", Stubs: []string{"loc", "rune"}, PanicIsViolation: true, MaxPaths: 3000000, Timeout: 60 * time.Minute, MaxSteps: 3000000, MaxDepth: 400, ReplayCap: 40000}
+	base := Job{Pkg: "core", Stubs: []string{"loc", "rune"}, PanicIsViolation: true, MaxPaths: 3000000, Timeout: 60 * time.Minute, MaxSteps: 3000000, MaxDepth: 400, ReplayCap: 40000,
+		AllowDrops: []string{"on symbolic operand"}}
 	// a. all-symbolic root files through the whole build
 	for n := 0; n <= maxN; n++ {
 		j := base
@@ -43,6 +48,30 @@ func propC01(c *Ctx) int {
 		j := base
 		j.Name, j.Fn, j.Params = fmt.Sprintf("build prefix#%d +%dB", pre, k), "HBuild", map[string]int64{"n": int64(k), "pre": int64(pre)}
 		c.RunJob(j)
+	}
+	// a''. symbolic holes (truncating and substituting) cut into representative documents
+	holeLens := []int{HoleDocLens[0], HoleDocLens[1], HoleDocLens[2], HoleDocLens[3]}
+	rng := rand.New(rand.NewSource(c.Seed))
+	for doc, L := range holeLens {
+		for mode := 0; mode <= 1; mode++ {
+			var cuts []int
+			if thorough {
+				for p := 0; p <= L; p++ {
+					cuts = append(cuts, p)
+				}
+			} else {
+				for i := 0; i < 12; i++ {
+					cuts = append(cuts, rng.Intn(L+1))
+				}
+			}
+			for _, cut := range cuts {
+				j := base
+				j.Name, j.Fn = fmt.Sprintf("hole doc#%d mode=%d cut=%d +%dB", doc, mode, cut, k), "HBuildHole"
+				j.Params = map[string]int64{"doc": int64(doc), "cut": int64(cut), "k": int64(k), "mode": int64(mode)}
+				j.Quiet = true
+				c.RunJob(j)
+			}
+		}
 	}
 	// b. macro call graphs (cycles of any length, undefined targets)
 	for m := 1; m <= 3; m++ {
